@@ -88,6 +88,16 @@ CHECKS = {
    text="Decides the structural invariants that keep the insertion-order list and the map in step: fields confined to HashTable's methods; put inserts (key, value), queues the key iff it was new, checks len > capacity after every insert and evicts exactly the popped list head; clear empties both; get/len/load_factor read the map; the TranspositionTable wrapper delegates 1:1. Does not decide map semantics over operation histories.",
    note="Trusted: rustc MIR, the extractor; std HashMap/VecDeque behave as documented.",
    ref="4/C18"),
+ "C01": dict(
+   technique="static analysis: exhaustive path enumeration of castle_moves and make_move on MIR with a board-geometry oracle; sibling-call comparison of the two generators; arm-wise mirror comparison of colour branches",
+   text="Decides structural necessary conditions of exact move generation: castling is emitted under exactly the four conditions of the rules with the geometrically right squares and masks for both colours and wings; the capture/promotion generator is the full generator minus castling with the filter on and every piece kind paired with its table; promotions to exactly Q,R,B,N; a move is dropped iff quiet and filtered; black arms mirror white arms in shift direction, masks, tables and players. Does not decide that the generated set equals the FIDE set for every position (pins, e.p. legality are the legality filter's job: C03/C05).",
+   note="Trusted: rustc MIR + const evaluation, the extractor, path evaluator, geometry oracle. The mirror rule judges only pairs it recognises (shifts by 8, u64 masks, +-8, players, per-square tables); other pairs are counted as not judged in the evidence.",
+   ref="4/C01"),
+ "C08": dict(
+   technique="static analysis: operand-shape inspection of the recursive calls and control-dependence classification of transposition bound types on MIR",
+   text="Decides the negamax sign discipline of both recursive searches (window = negated own beta, negated own alpha; child value negated exactly once) and the transposition-table bound classification on store and probe. These are necessary conditions of exact minimax values; values, pruning soundness in general and mate distances are not decided.",
+   note="Trusted: rustc MIR, the extractor. Thin claim by design (DESIGN.md section 4/C08).",
+   ref="4/C08"),
 }
 NOT_APPLICABLE = {
  "C17": "PGN tokenisation under arbitrary read fragmentation is decided by runtime bytes; the only structural clause in reach (buffer read only behind ensure_buffer) is too weak to stand for the property (DESIGN.md section 1).",
